@@ -459,3 +459,23 @@ func zzConnMarkerOrder12() {
 		zzsymCover("genuine_after_far_ahead_forgery")
 	}
 }
+
+type zzPC6 struct{ net.PacketConn }
+
+// Wiring: the window a connection's detectors are created with (Conn.replayProtectionWindow, read by
+// legacyReplayMarker and protectedReplayMarker) is, for every configured int up to MaxInt-64,
+// effectiveReplayProtectionWindow(configured) - through newConnConfigValues and newConn, the path every public
+// constructor (Client, Server, Resume, the listener) takes via createConn.
+//
+//symgo:entry covers=conn_window_wired
+func zzConnGetsEffectiveWindow() {
+	cfg := &dtlsConfig{}
+	cfg.ReplayProtectionWindow = zzsymInt("configured_window")
+	zzsymAssume(cfg.ReplayProtectionWindow <= (1<<63-1)-64)
+	values, err := newConnConfigValues(cfg)
+	zzsymAssert(err == nil, "wiring_config_values_ok")
+	c := newConn(zzPC6{}, &net.UDPAddr{Port: 1}, values, newHandshakeConfig(cfg, values, nil), zzsymChoice("client", 2) == 1)
+	zzsymAssert(c.replayProtectionWindow == uint(effectiveReplayProtectionWindow(cfg.ReplayProtectionWindow)), "conn_window_is_effective_window")
+	zzsymAssert(c.replayProtectionWindow%64 == 0 && c.replayProtectionWindow > 0, "conn_window_is_whole_words")
+	zzsymCover("conn_window_wired")
+}
